@@ -3,3 +3,5 @@ import TableauVerif.Model.Excel
 import TableauVerif.Model.Xerrors
 import TableauVerif.Model.Importer
 import TableauVerif.Props.C01Grid
+import TableauVerif.Spec.Grid
+import TableauVerif.Spec.C12Doc
